@@ -13,7 +13,8 @@ import subprocess
 import sys
 
 ROOT = os.path.dirname(os.path.dirname(os.path.abspath(__file__)))
-SEED = "/tmp/seed"
+SEED = os.environ.get("SEED_DIR", "/tmp/seed")
+OFFSET = int(os.environ.get("SEED_OFFSET", "0"))          # second-round changes are stored as <pid>_<k+3>
 
 
 def needs(notes):
@@ -52,18 +53,19 @@ def main():
                                                ("demonstration does not fail with the change", ev.get("demo_fails_with_change")),
                                                ("demonstration fails without the change", ev.get("demo_passes_without")),
                                                ("an existing test fails with the change: " + ", ".join(ev.get("suite_missing") or [])[:300], ev.get("suite_passes"))) if not ok)
-        meta = {"id": cid, "property": ev["property"], "status": status, "dropped_because": reason,
+        sid = cid if not OFFSET else f"{cid.split('_')[0]}_{int(cid.split('_')[1]) + OFFSET}"
+        meta = {"id": sid, "round": 2 if OFFSET else 1, "property": ev["property"], "status": status, "dropped_because": reason,
                 "what_it_needs_to_manifest": needs(notes),
                 "what_was_run": {"repo_head": head,
-                                 "apply": f"git -C <scratch worktree of /repo HEAD> apply seeded/{cid}/patch.diff",
-                                 "demonstration": f"PYTHONPATH=<worktree> /venv/bin/python seeded/{cid}/demo.py  (must exit non-zero) and the same with PYTHONPATH=/repo (must exit 0)",
+                                 "apply": f"git -C <scratch worktree of /repo HEAD> apply seeded/{sid}/patch.diff",
+                                 "demonstration": f"PYTHONPATH=<worktree> /venv/bin/python seeded/{sid}/demo.py  (must exit non-zero) and the same with PYTHONPATH=/repo (must exit 0)",
                                  "tests": "cd <worktree> && PYTHONPATH=<worktree> /venv/bin/python -m pytest -q -p no:cacheprovider --timeout=900 --continue-on-collection-errors "
                                           "--junitxml=... ; every id in stable_pass of /root/.vp/BASELINE.json must pass",
                                  "checks": f"VERIF_REPO=<worktree> ./check {ev['property']} --tier quick"},
                 "results": {k: ev.get(k) for k in ("patch_applies", "imports", "demo_fails_with_change", "demo_passes_without", "suite_passes", "suite_missing")},
                 "checks": checks, "detected": bool(detected_by), "detected_by": detected_by, "authors_notes": notes[:6000]}
         if confirmed:
-            out = os.path.join(ROOT, "seeded", cid)
+            out = os.path.join(ROOT, "seeded", sid)
             os.makedirs(out, exist_ok=True)
             for f in ("patch.diff", "demo.py"):
                 shutil.copy(os.path.join(d, f), os.path.join(out, f))
@@ -83,7 +85,7 @@ def main():
     lines.append("")
     lines.append(f"{len(rows)} candidate changes evaluated, {len(kept)} kept, {len(caught)} of the kept ones are caught by the check of their property (quick tier).")
     os.makedirs(os.path.join(ROOT, "seeded"), exist_ok=True)
-    open(os.path.join(ROOT, "seeded", "TABLE.md"), "w").write("\n".join(lines) + "\n")
+    open(os.path.join(ROOT, "seeded", "TABLE.md" if not OFFSET else "TABLE_round2.md"), "w").write("\n".join(lines) + "\n")
     print("\n".join(lines[-3:]))
 
 
